@@ -24,6 +24,22 @@ static int op_pad(int argc, char **argv, FILE *o) {
     hx_free(&a.b);
     return 0;
 }
+/* pad.big <n> <bs> <fill> <cap-delta>: capacity = padded - 1 + delta; buffer = data pattern (n bytes) then <fill> */
+static int op_pad_big(int argc, char **argv, FILE *o) {
+    uint64_t n, bs, fill, delta; size_t padded, cap, pl = 0, ul = 0, i, nz = 0; unsigned char *b; int rc, ur, dataok = 1;
+    if (argc != 4 || hx_u64(argv[0], &n) || hx_u64(argv[1], &bs) || hx_u64(argv[2], &fill) || hx_u64(argv[3], &delta) || bs == 0 || n >= (1ULL << 31) || bs >= (1ULL << 31)) return -1;
+    padded = (size_t) (n + (bs - n % bs)); cap = padded - 1 + (size_t) delta;
+    b = (unsigned char *) malloc(cap + 1); if (b == NULL) return -1;
+    for (i = 0; i < n; i++) b[i] = (unsigned char) (1 + i % 251);
+    memset(b + n, (int) (fill & 0xff), cap - (size_t) n);
+    rc = sodium_pad(&pl, b, (size_t) n, (size_t) bs, cap);
+    if (rc != 0) { fprintf(o, "%d", rc); free(b); return 0; }
+    for (i = 0; i < n; i++) if (b[i] != (unsigned char) (1 + i % 251)) dataok = 0;
+    for (i = (size_t) n + 1; i < pl && i < cap; i++) if (b[i]) nz++;
+    ur = sodium_unpad(&ul, b, pl, (size_t) bs);
+    fprintf(o, "0 %zu marker=%u tailnz=%zu dataok=%d unpad=%d,%zu", pl, (unsigned) b[n], nz, dataok, ur, ul);
+    free(b); return 0;
+}
 #include <sys/mman.h>
 /* the buffer is placed so that buf[-1] lies in a PROT_NONE page: a read before the buffer faults */
 static unsigned char *guarded_copy(const unsigned char *p, size_t n) {
@@ -48,4 +64,4 @@ static int op_unpad(int argc, char **argv, FILE *o) {
     hx_free(&b);
     return 0;
 }
-const hx_op ops_c16[] = { {"pad", op_pad}, {"unpad", op_unpad}, {NULL, NULL} };
+const hx_op ops_c16[] = { {"pad", op_pad}, {"pad.big", op_pad_big}, {"unpad", op_unpad}, {NULL, NULL} };
